@@ -106,7 +106,25 @@ def run_case(c, rnd):
     cfg = jsonrpclib.config.Config(use_jsonclass=rnd.random() < 0.5)
     rec = {"a": a, "expect": c["expect"], "reply": enc(json.loads(text)), "text": text}
     rec.update(meta)
-    rec["cfe"] = outcome(lambda: jsonrpc.check_for_errors(json.loads(text)))
+    if rnd.random() < 0.06:
+        # another thread checks another reply between two lines of this check (harness/interleave.py): same outcome
+        from harness import interleave
+        other = json.loads(rnd.choice([json.dumps(ok), '{"jsonrpc": "2.0", "id": 3, "error": {"code": -32601, "message": "nope"}}',
+                                       '{"id": 4, "result": null, "error": {"code": 7, "message": "app", "data": [1]}}']))
+        fa = lambda: jsonrpc.check_for_errors(json.loads(text))
+        n = interleave.points(fa)
+        res = None
+        for k in interleave.sample_points(n, 8, rnd):
+            holder = {}
+
+            def a():
+                holder["o"] = outcome(fa)
+            interleave.run(a, lambda: outcome(lambda: jsonrpc.check_for_errors(other)), k)
+            if res is None or holder["o"]["kind"] != res["kind"]:
+                res = holder["o"] if res is None else dict(holder["o"], kind="unstable:" + holder["o"]["kind"])
+        rec["cfe"] = res if res is not None else outcome(fa)
+    else:
+        rec["cfe"] = outcome(lambda: jsonrpc.check_for_errors(json.loads(text)))
     rec["proxy"] = outcome(lambda: jsonrpc.ServerProxy("http://loop/", transport=Loop(text), config=cfg).ping(1))
     # a notification call that the peer answers all the same: an error in that reply is not swallowed
     rec["notify"] = outcome(lambda: jsonrpc.ServerProxy("http://loop/", transport=Loop(text), config=cfg)._notify.ping(1))
